@@ -105,9 +105,9 @@ if __name__ == "__main__":
     if "--tier" in sys.argv:
         tier = sys.argv[sys.argv.index("--tier") + 1]
     tier = os.environ.get("VERIF_TIER") or tier
-    flavours = ["round", "odd", "text", "sniff", "round", "text", "blob", "odd", "round", "text", "blob"]
+    flavours = ["round", "odd", "text", "sniff", "cli", "round", "text", "blob", "odd", "round", "cli", "text", "blob"]
     if tier == "thorough":
         # 11 entries: coprime to the 16 worker chunks, so the expensive `big` cases are spread evenly
-        flavours = ["round", "odd", "text", "sniff", "round", "text", "blob", "odd", "big", "text", "round", "odd", "text"]
-    streamlib.run_property("C09", sigjson, flavours, sigjson.oracle, 1800, 24000, TB, AS, RULE,
+        flavours = ["round", "odd", "text", "sniff", "round", "cli", "text", "blob", "odd", "big", "text", "round", "odd", "text", "cli"]
+    streamlib.run_property("C09", sigjson, flavours, sigjson.oracle, 1500, 20000, TB, AS, RULE,
                            nontrivial=sigjson.nontrivial, extra=extra, classify=sigjson.classify)
